@@ -532,6 +532,24 @@ def _gen_where(g):
     if g.rng.random() < 0.5:
         shapes.reverse()
     ops = same_family(g, 2, shapes)
+    if ops[0]["k"] == "poly" and ops[1]["k"] == "poly" and g.rng.random() < 0.3 \
+            and len(ops[0]["exps"]) >= 2:
+        # the same set of terms in both operands, stored in different orders
+        # (construction order is kept by via="retain")
+        first, second = ops
+        rows = [list(r) for r in first["exps"]]
+        order = list(range(len(rows)))
+        while order == sorted(order):
+            g.rng.shuffle(order)
+        shape2 = tuple(second["shape"])
+        second.update({"names": list(first["names"]), "exps": [rows[i] for i in order],
+                       "coefs": G.nested_map(G.jnum, [g.array_data(shape2, first["kind"], zero_prob=0.0)
+                                                      for _ in order]),
+                       "kind": first["kind"], "via": "retain"})
+        second.pop("dtype", None)
+        first["via"] = "retain"
+        first["coefs"] = G.nested_map(G.jnum, [g.array_data(tuple(first["shape"]), first["kind"],
+                                                            zero_prob=0.0) for _ in rows])
     return {"operands": ops, "kw": {"cond": cond, "cond_shape": list(cond_shape)}}
 
 
